@@ -476,6 +476,106 @@ func checkC20(c *Ctx, r *Report) {
 		Requires: []string{resetK, "(*" + swarmP + ".BlackHoleSuccessCounter).updateState"}})
 
 	// ---- R5 ---------------------------------------------------------------
+	// ---- R6: each counter sees only the dials it is about -----------------------------------------------------
+	// "blocks only after a full observation window of its own kind": a counter's window is fed with the outcome of
+	// a dial only when the dialled address is public and of the counter's kind, and each slot of the detector is the
+	// swarm's counter of that kind.
+	r6 := r.Rule("C20-R6", "E1/E6", 6, "routing of dial outcomes: detector.RecordResult feeds the UDP counter only with public UDP addresses and the IPv6 counter only with public IPv6 addresses, with the caller's outcome; NewSwarm puts the swarm's UDP / IPv6 counters into the slots of the same name; the options store their argument in the matching field")
+	detT6 := swarmP + ".blackHoleDetector"
+	if f := r6.need("(*" + detT6 + ").RecordResult"); f != nil {
+		isAddr := func(v ssa.Value) bool { return isParamVar(c, v, "addr") }
+		public := edgeBool(func(v ssa.Value) bool {
+			ci := isResultOfCall(v, 0, "github.com/multiformats/go-multiaddr/net.IsPublicAddr")
+			return ci != nil && isAddr(ci.Common().Args[0])
+		}, true)
+		// The feeding sites are identified on the path (the receiver may be the parameter of a local function that
+		// is called once per counter): slotOf answers under the frame the path search is in.
+		feedK := "(*" + swarmP + ".BlackHoleSuccessCounter).RecordResult"
+		slotOf := func(in ssa.Instruction) string {
+			if !isCallTo(in, feedK) {
+				return ""
+			}
+			fl, base := loadOfField(resolveLoad(strip2(callArgs(in.(ssa.CallInstruction))[0])))
+			if fl == nil || fieldKeyOf(base, fl) != detT6+"."+fl.Name() || (fl.Name() != "udp" && fl.Name() != "ipv6") {
+				return "?"
+			}
+			return fl.Name()
+		}
+		isSlot := func(k string) func(ssa.Instruction) bool {
+			return func(in ssa.Instruction) bool { return slotOf(in) == k }
+		}
+		if w, _ := (&Cut{Fn: f, Target: isSlot("?")}).Run(c); w != "" {
+			r6.Fail("detector.RecordResult: counter receiver", f.Pos(), "the counter fed is not one of the detector's slots", w)
+		}
+		n6 := 0
+		for _, kind := range []string{"udp", "ipv6"} {
+			if w, _ := (&Cut{Fn: f, Target: isSlot(kind)}).Run(c); w == "" {
+				continue // (no feeding site of this counter: counted below)
+			}
+			n6++
+			code := constIntObj(c, "github.com/multiformats/go-multiaddr", "P_UDP")
+			if kind == "ipv6" {
+				code = constIntObj(c, "github.com/multiformats/go-multiaddr", "P_IP6")
+			}
+			ofKind := edgeBool(func(v ssa.Value) bool {
+				ci := isResultOfCall(v, 0, swarmP+".isProtocolAddr")
+				if ci == nil || !isAddr(ci.Common().Args[0]) {
+					return false
+				}
+				k, ok := constInt(resolveLoad(ci.Common().Args[1]))
+				return ok && k == code
+			}, true)
+			w, n := (&Cut{Fn: f, Target: isSlot(kind), EdgeCut: public}).Run(c)
+			r6.Check(w == "", "(*"+detT6+").RecordResult: feed the "+kind+" counter guarded-by IsPublicAddr(addr)", f.Pos(), n+1, "", "reachable without passing the guard `IsPublicAddr(addr)`", w)
+			w, n = (&Cut{Fn: f, Target: isSlot(kind), EdgeCut: ofKind}).Run(c)
+			r6.Check(w == "", "(*"+detT6+").RecordResult: feed the "+kind+" counter guarded-by isProtocolAddr(addr, its kind)", f.Pos(), n+1, "", "reachable without passing the guard `isProtocolAddr(addr, its kind)`", w)
+			w, n = (&Cut{Fn: f, Target: func(in ssa.Instruction) bool {
+				return slotOf(in) == kind && !isParamVar(c, resolveLoad(callArgs(in.(ssa.CallInstruction))[1]), "success") && !isParamVar(c, callArgs(in.(ssa.CallInstruction))[1], "success")
+			}}).Run(c)
+			r6.Check(w == "", "detector.RecordResult: the "+kind+" counter gets the caller's outcome", f.Pos(), n+1, "", "", w)
+		}
+		r6.Check(n6 == 2, "detector.RecordResult: feeds the two counters", f.Pos(), n6, "", "", fmt.Sprint(n6))
+	}
+	if f := r6.need(swarmP + ".NewSwarm"); f != nil {
+		want := map[string]string{"udp": "udpBHF", "ipv6": "ipv6BHF"}
+		seen := map[string]bool{}
+		for _, in := range findInstrs(f, func(in ssa.Instruction) bool {
+			st, ok := in.(*ssa.Store)
+			if !ok {
+				return false
+			}
+			fl, base := fieldAddrOf(st.Addr)
+			return fl != nil && fieldKeyOf(base, fl) == detT6+"."+fl.Name() && want[fl.Name()] != ""
+		}) {
+			enterScan(f)
+			st := in.(*ssa.Store)
+			fl, _ := fieldAddrOf(st.Addr)
+			seen[fl.Name()] = true
+			r6.Check(isLoadOfField(swarmP+".Swarm."+want[fl.Name()])(strip(st.Val)), "NewSwarm: detector."+fl.Name()+" = the swarm's "+want[fl.Name()], instrPos(in), 1, "",
+				"one kind's counter sits in the other kind's slot: UDP failures remove IPv6 addresses (or the reverse), and the configured counter is ignored", describeVal(strip(st.Val)))
+		}
+		r6.Check(seen["udp"] && seen["ipv6"], "NewSwarm: both detector slots are filled", f.Pos(), 2, "", "", fmt.Sprint(seen))
+	}
+	for opt, fld := range map[string]string{"WithUDPBlackHoleSuccessCounter": "udpBHF", "WithIPv6BlackHoleSuccessCounter": "ipv6BHF"} {
+		f := r6.need(swarmP + "." + opt)
+		if f == nil {
+			continue
+		}
+		n := 0
+		for _, g := range append([]*ssa.Function{f}, allAnon(f)...) {
+			for _, in := range findInstrs(g, func(in ssa.Instruction) bool {
+				return isFieldWrite(in, swarmP+".Swarm.udpBHF") || isFieldWrite(in, swarmP+".Swarm.ipv6BHF")
+			}) {
+				n++
+				enterScan(g)
+				okF := isFieldWrite(in, swarmP+".Swarm."+fld)
+				p, isP := strip(in.(*ssa.Store).Val).(*ssa.Parameter)
+				r6.Check(okF && isP && p.Parent() == f, opt+": stores its argument in "+fld, instrPos(in), 1, "", "the configured counter ends up in the other kind's field", "")
+			}
+		}
+		r6.Check(n == 1, opt+": one store", f.Pos(), n, "", "", fmt.Sprint(n))
+	}
+
 	r5 := r.Rule("C20-R5", "E3/E1", 3, "wiring: FilterAddrs applied in filterKnownUndialables; RecordResult(addr, err==nil) after every transport dial in dialAddr")
 	// the detector is consulted once per dial request: HandleRequest advances the request counter, so a second
 	// consultation turns the one probe per window into a refusal
